@@ -328,7 +328,7 @@ fn cmd_run(args: &[String]) {
 
     // 4. shrink what was found (oracle findings by the oracle, disagreements by re-running both sides)
     for f in findings.iter_mut() {
-        if !prop.shrinkable() {
+        if !prop.shrinkable() || std::env::var("VERIF_NOSHRINK").is_ok() {
             continue;
         }
         let before = f.case.html.len();
